@@ -129,7 +129,7 @@ structure Col where
   b : Nat
   sel : Sel
   norm : NExpr
-deriving Repr, Inhabited
+deriving DecidableEq, Repr, Inhabited
 
 /-- one of `unary … quinary` -/
 structure Method where
@@ -138,7 +138,7 @@ structure Method where
   cols : List Col            -- accumulated columns in source order
   nideal : NExpr             -- `nideal = …`
   r : NExpr                  -- `grresults["r"] = …`
-deriving Repr, Inhabited
+deriving DecidableEq, Repr, Inhabited
 
 /-- attributes derived in `gr.__init__` + `funcs.nidealfac` -/
 structure Defs where
